@@ -3,6 +3,7 @@ package c02
 
 import (
 	"bytes"
+	"context"
 	"errors"
 	"fmt"
 	"io"
@@ -13,6 +14,7 @@ import (
 	"sync"
 	"sync/atomic"
 	"testing"
+	"time"
 
 	"github.com/whoisnian/glb/logger"
 	"pgregory.net/rapid"
@@ -104,6 +106,10 @@ type op struct {
 	attrs  []lm.Node
 	form   int
 	id     string
+	// direct: the record is handed to Handler.Handle with a time of its own (as a slog bridge or a replaying tool
+	// does); then even the time field must be byte-for-byte what it is when the record is logged alone
+	direct  bool
+	instant time.Time
 }
 
 type scenario struct {
@@ -161,6 +167,8 @@ func genScenario(t *rapid.T) *scenario {
 		}
 		sc.shared = append(sc.shared, c)
 	}
+	base := lm.GenInstant().Draw(t, "baseInstant")
+	zones := []*time.Location{base.Location(), time.FixedZone("", 8*3600)}
 	g := rapid.IntRange(2, 8).Draw(t, "goroutines")
 	for gi := 0; gi < g; gi++ {
 		n := rapid.IntRange(5, 30).Draw(t, "steps")
@@ -180,6 +188,12 @@ func genScenario(t *rapid.T) *scenario {
 				st := lm.GenStep(genOpts).Draw(t, "step")
 				o.derive = &st
 			}
+			if rapid.IntRange(0, 3).Draw(t, "direct") == 0 {
+				// instants of neighbouring seconds, minutes and zones, so that concurrent records differ in their stamps
+				o.direct = true
+				shift := rapid.SampledFrom([]time.Duration{0, 0, time.Second, -time.Second, 999 * time.Millisecond, time.Minute, time.Hour, 24 * time.Hour}).Draw(t, "shift")
+				o.instant = base.Add(shift).In(zones[rapid.IntRange(0, 1).Draw(t, "zone")])
+			}
 			script = append(script, o)
 		}
 		sc.scripts = append(sc.scripts, script)
@@ -196,9 +210,27 @@ func (sc *scenario) render() string {
 		len(sc.shared)-1, len(sc.scripts), total, sc.yields, sc.spins)
 }
 
+// handle passes a record with a time of its own to a handler, the way Logger does it (threshold first).
+func handle(h logger.Handler, o op) {
+	if !h.Enabled(o.level) {
+		return
+	}
+	pc, _, _ := lm.CallerPC()
+	r := slog.NewRecord(o.instant, o.level, o.msg(), pc)
+	r.AddAttrs(lm.Attrs(o.attrs)...)
+	_ = h.Handle(context.Background(), r)
+}
+
 // alone logs one record through a fresh handler with the same chain into a private buffer.
 func (sc *scenario) alone(o op) []byte {
 	sink := &lm.Sink{}
+	if o.direct {
+		handle(lm.DeriveHandler(lm.NewHandler(sc.kind, sink, sc.opts()), o.chain(sc)), o)
+		if len(sink.Writes) != 1 {
+			return nil
+		}
+		return sink.Writes[0] // its own time: nothing to mask
+	}
 	l := lm.Derive(logger.New(lm.NewHandler(sc.kind, sink, sc.opts())), o.chain(sc))
 	lm.Emit(l, o.form, o.level, o.msg(), o.attrs)
 	if len(sink.Writes) != 1 {
@@ -211,16 +243,20 @@ type outcome struct {
 	interleaved  bool
 	derivedWrote bool
 	bigLine      bool
+	ownTime      bool
 	writes       int
 }
 
 func runScenario(sc *scenario) (string, outcome) {
 	var oc outcome
 	mon := &monitor{yields: sc.yields, spins: sc.spins, failEvery: sc.failEvery}
-	root := logger.New(lm.NewHandler(sc.kind, mon, sc.opts()))
+	rootH := lm.NewHandler(sc.kind, mon, sc.opts())
+	root := logger.New(rootH)
 	shared := make([]*logger.Logger, len(sc.shared))
+	sharedH := make([]logger.Handler, len(sc.shared)) // the same derivations as handlers, for records with a time of their own
 	for i, c := range sc.shared {
 		shared[i] = lm.Derive(root, c)
+		sharedH[i] = lm.DeriveHandler(rootH, c)
 	}
 	var wg sync.WaitGroup
 	start := make(chan struct{})
@@ -230,6 +266,14 @@ func runScenario(sc *scenario) (string, outcome) {
 			defer wg.Done()
 			<-start
 			for _, o := range script {
+				if o.direct {
+					h := sharedH[o.base]
+					if o.derive != nil {
+						h = lm.DeriveHandler(h, []lm.Step{*o.derive})
+					}
+					handle(h, o)
+					continue
+				}
 				l := shared[o.base]
 				if o.derive != nil {
 					l = lm.Derive(l, []lm.Step{*o.derive})
@@ -278,7 +322,13 @@ func runScenario(sc *scenario) (string, outcome) {
 		}
 		seen[id] = true
 		want := sc.alone(o)
-		if got := lm.MaskTime(sc.kind, w); !bytes.Equal(got, want) {
+		got := w
+		if !o.direct {
+			got = lm.MaskTime(sc.kind, w)
+		} else {
+			oc.ownTime = true
+		}
+		if !bytes.Equal(got, want) {
 			return fmt.Sprintf("record %s written concurrently differs from the same record logged alone\n  concurrent: %q\n  alone:      %q", id, clip(got), clip(want)), oc
 		}
 		g := id[:strings.Index(id[3:], "-")+3]
@@ -314,8 +364,120 @@ func TestScenarios(t *testing.T) {
 		if oc.derivedWrote {
 			ev.Label("observed:derived_logger_wrote")
 		}
+		if oc.ownTime {
+			ev.Label("observed:records_with_a_time_of_their_own_(Handler.Handle)")
+		}
 		ev.LabelN("records_written", int64(oc.writes))
 		ev.Case(oc.interleaved && oc.derivedWrote && oc.bigLine, ev.Hash(sc.render(), fmt.Sprint(oc.writes)), sc.render)
+	})
+}
+
+// TestParallelHammer: many goroutines, each in a tight loop, hand small records with times of their own - neighbouring
+// seconds, minutes and zones - to the root handler and to handlers derived from it, all at once. Windows of a few
+// nanoseconds in per-record shared state (a stamp cache, a pooled buffer) occur once per record, so the number of
+// records, not the size of a scenario, is what reaches them. Every written line must be byte-for-byte one of the
+// lines the same goroutine's records give when logged alone, and each of them must appear as often as it was logged.
+func TestParallelHammer(t *testing.T) {
+	rt.Check(t, 6, 1500, func(t *rapid.T) {
+		for kind := 0; kind < 3; kind++ { // every case visits the three handlers
+			opts := logger.NewOptions(logger.LevelDebug, false, rapid.IntRange(0, 3).Draw(t, "addSource") == 0)
+			base := lm.GenInstant().Draw(t, "baseInstant")
+			var instants []time.Time
+			for _, sh := range []time.Duration{0, time.Second, -time.Second, 999 * time.Millisecond, time.Minute} {
+				instants = append(instants, base.Add(sh))
+			}
+			instants = append(instants, base.In(time.FixedZone("", 8*3600)), base.Add(time.Second).In(time.FixedZone("", -3600)))
+			g := rapid.IntRange(3, 12).Draw(t, "goroutines")
+			per := rapid.SampledFrom([]int{1000, 4000}).Draw(t, "recordsPerGoroutine")
+			mon := &monitor{}
+			rootH := lm.NewHandler(kind, mon, opts)
+			type worker struct {
+				chain []lm.Step
+				h     logger.Handler
+				want  map[string]int // expected line -> how often
+				order []int
+			}
+			ws := make([]*worker, g)
+			for i := range ws {
+				w := &worker{want: map[string]int{}}
+				if rapid.Bool().Draw(t, "derived") {
+					w.chain = []lm.Step{lm.GenStep(genOpts).Draw(t, "step")}
+				}
+				w.h = lm.DeriveHandler(rootH, w.chain)
+				w.order = rapid.SliceOfN(rapid.IntRange(0, len(instants)-1), 2, 7).Draw(t, "instantOrder")
+				ws[i] = w
+			}
+			mkop := func(i, k int) op {
+				w := ws[i]
+				return op{level: logger.LevelInfo, id: fmt.Sprintf("id-%d-0-", i), direct: true, instant: instants[w.order[k%len(w.order)]]}
+			}
+			for i, w := range ws {
+				lineOf := map[int]string{} // position in the goroutine's cycle of instants -> the line when logged alone
+				for k := 0; k < len(w.order); k++ {
+					sink := &lm.Sink{}
+					handle(lm.DeriveHandler(lm.NewHandler(kind, sink, opts), w.chain), mkop(i, k))
+					if len(sink.Writes) != 1 {
+						t.Fatalf("logged alone, a record caused %d Write calls", len(sink.Writes))
+					}
+					lineOf[k] = string(sink.Writes[0])
+				}
+				for k := 0; k < per; k++ {
+					w.want[lineOf[k%len(w.order)]]++ // different instants may give the same line (Nano prints whole seconds)
+				}
+			}
+			var wg sync.WaitGroup
+			start := make(chan struct{})
+			for i := range ws {
+				wg.Add(1)
+				go func(i int) {
+					defer wg.Done()
+					<-start
+					for k := 0; k < per; k++ {
+						handle(ws[i].h, mkop(i, k))
+					}
+				}(i)
+			}
+			close(start)
+			wg.Wait()
+			if len(mon.problems) > 0 {
+				t.Fatalf("%s", strings.Join(mon.problems, "; "))
+			}
+			if len(mon.writes) != g*per {
+				t.Fatalf("%d Write calls for %d records", len(mon.writes), g*per)
+			}
+			got := make([]map[string]int, g)
+			for i := range got {
+				got[i] = map[string]int{}
+			}
+			for _, w := range mon.writes {
+				ids := idRe.FindAllString(string(w), -1)
+				if len(ids) != 1 {
+					t.Fatalf("a Write payload carries %d record ids, want exactly one: %q", len(ids), clip(w))
+				}
+				var gi int
+				fmt.Sscanf(ids[0], "id-%d-", &gi)
+				if _, ok := ws[gi].want[string(w)]; !ok {
+					var alone []string
+					for l := range ws[gi].want {
+						alone = append(alone, l)
+					}
+					t.Fatalf("%s handler, %d goroutines: goroutine %d wrote a line that none of its records gives when logged alone\n  written: %q\n  alone:   %q", lm.HandlerNames[kind], g, gi, clip(w), alone)
+				}
+				got[gi][string(w)]++
+			}
+			for i, w := range ws {
+				for l, n := range w.want {
+					if got[i][l] != n {
+						t.Fatalf("%s handler: goroutine %d logged %q %d times, it was written %d times", lm.HandlerNames[kind], i, clip([]byte(l)), n, got[i][l])
+					}
+				}
+			}
+			ev.Label("hammer:" + lm.HandlerNames[kind])
+			ev.LabelN("hammer_records", int64(g*per))
+			ev.Case(g >= 2, ev.Hash("hammer", fmt.Sprint(kind, g, per, base.UnixNano())), func() string {
+				return fmt.Sprintf("hammer: %s handler, %d goroutines x %d records with %d instants around %s", lm.HandlerNames[kind], g, per, len(instants), base.Format(time.RFC3339Nano))
+			})
+		}
 	})
 }
 
